@@ -350,7 +350,7 @@ theorem cycleTake_getElem? (l : List α) (h : l ≠ []) (n i : Nat) (hi : i < n)
 /-! ### the operations, in closed form -/
 
 theorem sortNat_eq_of_perm_sorted {l m : List Nat} (hp : l.Perm m) (hs : m.Pairwise (· ≤ ·)) : sortNat l = m :=
-  List.Perm.eq_of_pairwise (le := (· ≤ ·)) (fun a b _ _ h1 h2 => Nat.le_antisymm h1 h2)
+  List.Perm.eq_of_pairwise (le := (· ≤ ·)) (fun _ _ _ _ h1 h2 => Nat.le_antisymm h1 h2)
     (sortNat_sorted l) hs ((sortNat_perm l).trans hp)
 
 /-- strictly ascending requests that all fit in the final rank pass the `expand_dims` check -/
@@ -403,7 +403,7 @@ theorem Arr.squeeze_some_ok (a : Arr α) (axes : List Int) (hwf : a.WF)
   have hany : (sortNat (axes.map (normalizeAxis a.ndim))).reverse.any (fun x => decide (x ≥ a.ndim)) = false := by
     rw [List.any_eq_false]; intro x hx
     have := hlt x hx
-    simp only [Arr.ndim, decide_eq_true_eq]; omega
+    simp only [Arr.ndim, ge_iff_le, decide_eq_true_eq]; omega
   have hdims : ((sortNat (axes.map (normalizeAxis a.ndim))).reverse.map (fun i => a.shape.getD i 0)).any
       (fun d => d != 1) = false := by
     rw [List.any_eq_false]; intro d hd
@@ -436,7 +436,7 @@ theorem Arr.squeeze_some_nonunit (a : Arr α) (axes : List Int)
   have hany : (sortNat (axes.map (normalizeAxis a.ndim))).reverse.any (fun x => decide (x ≥ a.ndim)) = false := by
     rw [List.any_eq_false]; intro x hx
     have := hlt x hx
-    simp only [Arr.ndim, decide_eq_true_eq]; omega
+    simp only [Arr.ndim, ge_iff_le, decide_eq_true_eq]; omega
   obtain ⟨x, hx, hne⟩ := h
   have hdims : ((sortNat (axes.map (normalizeAxis a.ndim))).reverse.map (fun i => a.shape.getD i 0)).any
       (fun d => d != 1) = true := by
